@@ -134,6 +134,39 @@ def sdf_cycle(models, version):
     return None
 
 
+def key_contract(kw):
+    """every metadata key - all combinations of its parts incl. the values 0 and '' - survives serialize/deserialize"""
+    K = mol.Metadata.Key
+    try:
+        k = K(**kw)
+    except ValueError:
+        return None
+    text = k.serialize()
+    back = K.deserialize(text)
+    if back != k:
+        return f"key {k!r} serialised as {text!r} reads back as {back!r}"
+    md = mol.Metadata({k: "v"})
+    rec = mol.SDRecord(header=mol.Header(mol_name="m"), metadata=md)
+    rec.set_structure(molecule(["C"], [0], []))
+    f = mol.SDFile({"m": rec})
+    s = io.StringIO()
+    f.write(s)
+    g = mol.SDFile.read(io.StringIO(s.getvalue()))
+    got = list(g["m"].metadata.keys())
+    if got != [k]:
+        return f"key {k!r} in a file reads back as {got!r}"
+    return None
+
+
+for number in (None, 0, 1, 25):
+    for name in (None, "x", "Name.1"):
+        for ri in (None, 0, 7):
+            for re_ in (None, "", "ext-9"):
+                kw = {"number": number, "name": name, "registry_internal": ri, "registry_external": re_}
+                R.check("SDF metadata keys (names, numbers, registry parts) survive unchanged", "metadata key", {k: repr(v) for k, v in kw.items()},
+                        lambda kw=kw: key_contract(kw))
+
+
 def header_contract(fields):
     import datetime
     h = mol.Header(**fields)
